@@ -271,6 +271,7 @@ def oracleStep (o : OState S) (σ : State S) (c : Cmd S) (out : Out S) (σ' : St
   | .same _ _ => (o, some (.bool true))
   | .samegrad _ _ => (o, some (.bool true))
   | .lin _ _ _ _ _ => (o, some (.bool true))
+  | .sumgrad _ _ => (o, some (.bool true))
   | .probe _ => match out with
     | .probe _ _ tr keep kids rc => (o, some (.probe 0 false tr keep kids rc))
     | _ => (o, none)
